@@ -257,6 +257,9 @@ VARIANTS = {
         fire('flags-share-key', FL, 'as_sealed', '_TLS_SEALED', '_TLS_ACCESSOR_WRITABLE', 'C17.f', 'flags'),
         fire('permission-inner-wins', PE, 'permission', 'perm = outter_perm', 'pass', 'C17.d', 'permission'),
         fire('timeit-skips-restore', 'pyglove/core/utils/timing.py', 'TimeIt.__exit__', 'self.end(exc_value)', 'if not self.end(exc_value):\n        return', 'C17.a', 'TimeIt'),
+        fire('arg-scope-mutates-outer', TL, 'thread_local_arg_scope', 'current_kwargs = previous_kwargs.copy()', 'current_kwargs = previous_kwargs', 'C17.g', 'thread_local_arg_scope'),
+        fire('contextual-scope-mutates-outer', 'pyglove/core/utils/contextual.py', 'contextual_scope', 'current_values = dict(previous_values)', 'current_values = previous_values', 'C17.g', 'contextual_scope'),
+        silent('arg-scope-copy-by-dict', TL, 'thread_local_arg_scope', 'current_kwargs = previous_kwargs.copy()', 'current_kwargs = dict(previous_kwargs)'),
         silent('rename-key-constant-usage', TL, 'thread_local_value_scope', 'previous_value', 'prev', count=0),
     ],
     'C18': [
